@@ -72,6 +72,11 @@ def case_hist(sh, a, b):
                 h.append('kind=' + d['kind'])
             if 'why' in d:
                 h.append('why=' + d['why'])
+            if 'list' in d:
+                h.append('biglist=' + d['list'])
+                h.append('biglist-count>=%d' % (int(d.get('count', '0')) // 1000 * 1000))
+                if d.get('cut', '0') != '0':
+                    h.append('biglist-cut')
         elif t[0] == 'SET':
             h.append('set=' + t[2])
             for x in t[3:]:
@@ -298,6 +303,8 @@ def j_c05(sh, a, b):
             g = sh['go'][i]
             if ' hang' in g or 'FAIL elems' in g or g == '<no output>':
                 res['concrete'].append(dict(line=i, what='decoding does not terminate within bounds: ' + g[:200]))
+            elif 'FAIL alloc' in g:
+                res['concrete'].append(dict(line=i, what='decoding allocates more than 1 MiB + 512 bytes per input byte + twice the declared length: ' + g[:200]))
             elif o == 'RD':
                 # bytes drawn from the stream: the model's count is bounded by the theorems of C05/C06
                 mg, ml = re.findall(r' c=(\d+)', g), re.findall(r' c=(\d+)', sh['lean'][i])
@@ -479,7 +486,22 @@ def js_c11(sh, ctx):
 def j_c12(sh, a, b):
     res = base(sh, a, b, {'NEW', 'SET', 'ENC'})
     steps = 0
+    last = None
     for i in range(a, b):
+        if sh['ops'][i] == 'VIEW p':
+            last = i
+        if sh['ops'][i] == 'RDP p q' and last is not None:
+            # the frame written after the history, read back by the library itself. When the model says that frame decodes
+            # to the very values the accessors report (the state is inside what the wire can carry) and the accessors of
+            # the implementation are the model's, the implementation's frame must decode to them too.
+            gv, lv = sh['go'][last], sh['lean'][last]
+            gr, lr = sh['go'][i], sh['lean'][i]
+            if gv == lv and lv.startswith('view ') and lr == 'rdp ' + lv[5:]:
+                res['evals'] += 1
+                if gr != lr:
+                    res['concrete'].append(dict(line=i, from_start=False, what='the encoded frame does not reflect the final state: accessors say `%s`, the frame reads back as `%s`' % (
+                        gv[5:300], gr[:300])))
+                    break
         if opname(sh['ops'][i]) == 'VIEW':
             res['evals'] += 1
             steps += 1
@@ -586,6 +608,23 @@ def j_c15(sh, a, b):
     res = base(sh, a, b, {'VB'})
     for i in range(a, b):
         t = sh['ops'][i].split()
+        if sh['ops'][i].startswith('NOTE case=vbframe'):
+            # the remaining length decoded from a stream by ReadPacket: value (= bytes of the body handed to the decoder,
+            # seen as the payload length) and advance (= where the next frame is found)
+            d = notes(sh['ops'][i])
+            v, w = int(d['v']), int(d['w'])
+            g = sh['go'][i + 1]
+            res['evals'] += 1
+            res['keys'].append(sh['ops'][i + 1][-60:] + d['v'])
+            res['hist'].append('stream-remaining-length-width=%d' % w)
+            calls = g[3:].split(' || ') if g.startswith('rd ') else []
+            m = re.search(r'Payload=x([0-9a-f]*);', calls[0]) if calls else None
+            ok = len(calls) == 2 and calls[0].startswith('pkt Publish ') and calls[0].endswith(' c=%d' % (1 + w + v)) \
+                and m is not None and len(m.group(1)) == 2 * (v - 4) and calls[1].startswith('pkt PingReq ') and calls[1].endswith(' c=2')
+            if not ok:
+                res['concrete'].append(dict(line=i + 1, what='remaining length %d (%d bytes) read from a stream: the call does not return a %d-byte payload, advance by %d and find the next frame: %s' % (
+                    v, w, v - 4, 1 + w + v, ' || '.join(c[:14] + '…' + c[-8:] for c in calls)[:200] or g[:100])))
+            continue
         if not t or t[0] != 'VB':
             continue
         g = sh['go'][i]
@@ -931,15 +970,15 @@ PROPS = {
     'C03': P(js_c03, [('frames', 1600)], [('frames', 40000), ('frames+', 1500)],
              'specification-style generated valid frames (all 15 types, property permutations, explicit zeros, short forms); distinct by (type, set of non-default fields); thorough adds the inputs Go native fuzzing keeps, on which model and decoder must return the same',
              extra=extra_fuzz),
-    'C04': P(per_case(j_c04), [('malformed', 1500), ('reject', 40), ('cuts', 40)], [('malformed', 60000), ('reject', 1500), ('cuts', 1500), ('short', 2)],
+    'C04': P(per_case(j_c04), [('malformed', 1500), ('reject', 40), ('cuts', 40), ('wfrd', 160)], [('malformed', 60000), ('reject', 1500), ('cuts', 1500), ('short', 2), ('wfrd', 5000)],
              'arbitrary, truncated and mutated bytes through UnmarshalBinary of every type and through ReadPacket; distinct = distinct input lines; thorough adds the inputs Go native fuzzing keeps (input_distribution: fuzz …)',
              extra=extra_fuzz),
-    'C05': P(per_case(j_c05), [('malformed', 1500), ('reject', 40), ('cuts', 40)], [('malformed', 60000), ('reject', 1500), ('cuts', 1500)],
-             'as C04, outcome = returned within the watchdog and list elements <= input bytes; distinct = distinct input lines',
+    'C05': P(per_case(j_c05), [('malformed', 1500), ('reject', 40), ('cuts', 40), ('biglist', 64)], [('malformed', 60000), ('reject', 1500), ('cuts', 1500), ('biglist', 2000)],
+             'as C04, outcome = returned within the watchdog, list elements <= input bytes, bytes allocated during the call (runtime.MemStats.TotalAlloc) <= 1 MiB + 512 x input + 2 x declared length; biglist = frames with 600..4500 user properties, subscription identifiers, filters or reason codes, whole and cut short; distinct = distinct input lines',
              extra=extra_fuzz),
     'C06': P(per_case(j_c06), [('seq', 1200)], [('seq', 40000)],
              'concatenations of 1..5 frames (valid, content-malformed, zero-length) plus trailing bytes; distinct by the vector of frame lengths and tail'),
-    'C07': P(per_case(j_c07), [('frames', 1200)], [('frames', 20000), ('comps', 200)],
+    'C07': P(per_case(j_c07), [('frames', 1200), ('nonmin', 160)], [('frames', 20000), ('comps', 200), ('nonmin', 5000)],
              'frame x delivery schedule pairs compared with the contiguous read of the same frame; distinct = distinct (frame, schedule) lines'),
     'C08': P(per_case(j_c08), [('cuts', 120)], [('cuts', 4000)],
              'every cut offset of generated frames x EOF / transport error x delivery style; distinct = distinct (prefix, schedule, failure) lines'),
@@ -957,7 +996,7 @@ PROPS = {
              extra=extra_c13),
     'C14': P(js_c14, [('pool', 500)], [('pool', 20000)],
              'histories over a pool of 2..5 packets (decode, scribble over the decoder input, set, encode) with all packets viewed after every step; distinct = histories containing a scribble'),
-    'C15': P(per_case(j_c15), [('vb', 4000)], [('vb', 100000)],
+    'C15': P(per_case(j_c15), [('vb', 4000), ('vbframe', 64)], [('vb', 100000), ('vbframe', 2000)],
              'boundary values, random values, random byte sequences through the hooks, against a closed-form oracle; thorough adds the exhaustive Go sweep; distinct = distinct op lines'),
     'C16': P(per_case(j_c16), [('first', 1)], [('first', 12)],
              'all 256 first bytes x generated bodies valid for the selected type; distinct = first bytes', ),
